@@ -162,3 +162,43 @@ func Run(o Opts) (*Result, error) {
 	}
 	return res, nil
 }
+
+// Apalache runs `apalache-mc check --length=0 --init=Init --inv=<inv>` on a module of /verif/spec inside a
+// scratch directory and returns the checker's outcome ("NoError", "Error", ...).
+func Apalache(module, inv, dir string, timeout time.Duration) (string, float64, error) {
+	if err := os.MkdirAll(dir, 0o755); err != nil {
+		return "", 0, err
+	}
+	b, err := os.ReadFile(filepath.Join(SpecDir(), module+".tla"))
+	if err != nil {
+		return "", 0, err
+	}
+	if err := os.WriteFile(filepath.Join(dir, module+".tla"), b, 0o644); err != nil {
+		return "", 0, err
+	}
+	ctx, cancel := context.WithTimeout(context.Background(), timeout)
+	defer cancel()
+	cmd := exec.CommandContext(ctx, "apalache-mc", "check", "--length=0", "--init=Init", "--inv="+inv,
+		"--out-dir="+filepath.Join(dir, "out-"+inv), module+".tla")
+	cmd.Dir = dir
+	cmd.Env = append(os.Environ(), "JVM_ARGS=-Xmx2g -Djava.io.tmpdir="+dir)
+	var out bytes.Buffer
+	cmd.Stdout = &out
+	cmd.Stderr = &out
+	t0 := time.Now()
+	_ = cmd.Run()
+	wall := time.Since(t0).Seconds()
+	if ctx.Err() != nil {
+		return "", wall, fmt.Errorf("apalache %s %s: timeout", module, inv)
+	}
+	re := regexp.MustCompile(`The outcome is: (\w+)`)
+	m := re.FindStringSubmatch(out.String())
+	if m == nil {
+		s := out.String()
+		if len(s) > 600 {
+			s = s[len(s)-600:]
+		}
+		return "", wall, fmt.Errorf("apalache %s %s: no outcome\n%s", module, inv, s)
+	}
+	return m[1], wall, nil
+}
